@@ -258,8 +258,14 @@ class TaskGroup:
                                                                   and self.completed)):
                     return
         finally:
-            # Cancel everything including daemons
-            await self._cancel_tasks(self._pending.union(self.daemons))
+            # Cancel everything including daemons.  A task being cancelled can add new
+            # tasks to the group, so repeat until none remains unfinished.
+            while True:
+                remaining = set(task for task in self._pending.union(self.daemons)
+                                if not task.done())
+                if not remaining:
+                    break
+                await self._cancel_tasks(remaining)
             self.joined = True
 
     async def _cancel_tasks(self, tasks):
